@@ -40,9 +40,12 @@ func (p H2Preamble) Frames() []Frame {
 func DrawPreamble(t *rapid.T) H2Preamble {
 	var p H2Preamble
 	ids := []uint16{1, 2, 3, 4, 5, 6, 8, 9, 0x10, 0xff00}
+	// distinct ids: the server hangs up on SETTINGS frames with duplicate ids (upstream hardening, O5)
+	ids = append([]uint16(nil), ids...)
+	shuffle(t, "setshuf", ids)
 	n := rapid.IntRange(0, 5).Draw(t, "nset")
 	for i := 0; i < n; i++ {
-		id := ids[rapid.IntRange(0, len(ids)-1).Draw(t, "setid")]
+		id := ids[i]
 		var v uint32
 		switch id {
 		case 2:
